@@ -37,7 +37,8 @@ func (c19) Assumptions() []string {
 	return []string{"token-level key order comes from encoding/json's Decoder.Token stream (internal/jsonorder)", "cross-process comparison relies on Go giving each process fresh map/hash seeds"}
 }
 
-var orderNames = []string{"a", "b", "c", "d", "e", "zeta", "Alpha", "é", "0", "10", "2", "_x", "", " "} // "" is a property name like any other
+var orderNames = []string{"a", "b", "c", "d", "e", "zeta", "Alpha", "é", "0", "10", "2", "_x", "", " ",
+	"tag\U00010400", "tag\ufb01", "\U0001F600", "\uff21", "\ufffd", "\ue000"} // "" is a property name like any other; names above U+FFFF next to names in U+E000..U+FFFF (UTF-8 byte order and UTF-16 unit order differ there)
 
 type orderGen struct {
 	c       *fw.Case
